@@ -76,6 +76,11 @@ CHECKS = {
             "passes one metric's (name, labels, namespace or 'deep', help, unit, value) in interface order to every processor "
             "(each isolated, processors re-obtained per metric), that the value is 1 unless float(expression) and labels are "
             "static or evaluated text, and that without a processor the hit is rejected before limits.", "4/C17"),
+    "C18": ("dominance/lock rules on every mutation of the attribute store, escape rule, capacity shape rule, origin of the stored value, decision tables of value cleaning and the schema-URL rule, merge purity (no-write) rule, source-order rule",
+            "Static decision for every operation history: no mutation without the raising immutable test and the lock, the backing dict never "
+            "escapes, drop at capacity 0 / evict the oldest exactly once when full / replace evicts nothing, only cleaned non-None values "
+            "stored, merge writes nothing to its operands and is right-biased with the schema table, sources chained default < env < code < "
+            "fallback and plugins onto the accumulated resource.", "4/C18"),
     "C19": ("decision table of the config lookup fallback, documentation/default key agreement, text-to-number type-flow rule, flat-list shape rule, order rule of is_app_frame",
             "Static decision of the lookup precedence over every presence class (code > module default > DEEP_<KEY> > None, callables "
             "called), that every documented key has a default reading its own DEEP_ variable, that no setting that can be environment "
